@@ -416,3 +416,315 @@ def values_encode(I, args, ins):
         return ''.join(parts)
     zs = [zstr(p) for p in parts]
     return z3.Concat(*zs)
+
+
+# ------------------------------------------------------------------ net/http: requests, contexts, reply helpers
+from ..runner import intrinsic
+from ..core import OPAQUE_IMPLEMENTS, TupleV as _T
+
+HTTPREQ = 'net/http.Request'
+COOKIE = 'net/http.Cookie'
+
+
+def _req_ghost(I, p):
+    ctx = I.ctx
+    p = ctx.force(p)
+    if p is None:
+        raise GoPanic('nil-deref', ctx.cur_pos)
+    return ctx.ghost.setdefault('requests', {}).setdefault(p.cell, {'form': None, 'cookies': [], 'ctx': None})
+
+
+@intrinsic('verifRequest')
+def i_request(I, args, ins):
+    ctx = I.ctx
+    method, rawurl, form, cookies = args
+    r = url_parse(I, [rawurl], ins)
+    if ctx.force(r[1]) is not None:
+        ctx.assume(False)
+    v = I.prog.zero(HTTPREQ)
+    for name, val in (('Method', method), ('URL', r[0]), ('Header', MapRef(ctx.new_cell((), 'header'))), ('RequestURI', rawurl)):
+        v = v.with_field(I.prog.field_index(HTTPREQ, name), val)
+    p = ctx.alloc(v, 'request')
+    g = _req_ghost(I, p)
+    g['form'] = ctx.force(form)
+    g['cookies'] = [ctx.force(c) for c in I.slice_elems(cookies)]
+    return p
+
+
+@stub('(*net/http.Request).ParseForm')
+def req_parseform(I, args, ins):
+    ctx = I.ctx
+    p = ctx.force(args[0])
+    g = _req_ghost(I, p)
+    if ctx.opts.get('parseform_may_fail') and ctx.choose(2, 'parseform-err') == 1:
+        return ctx.new_error('http', msg='invalid URL escape in form')
+    r = ctx.load(p)
+    fi, pi = I.prog.field_index(HTTPREQ, 'Form'), I.prog.field_index(HTTPREQ, 'PostForm')
+    if ctx.force(r[fi]) is not None:
+        return None
+    post = tuple(ctx.store[g['form'].cell]) if g['form'] is not None else ()
+    u = ctx.load(ctx.force(r[I.prog.field_index(HTTPREQ, 'URL')]))
+    qpairs, _ = parse_query_atoms(I, _atoms(u[I.prog.field_index('net/url.URL', 'RawQuery')]))
+    allv = list(post)
+    q = make_values(I, qpairs)
+    for k, vs in ctx.store[q.cell]:
+        placed = False
+        for i, (ek, ev) in enumerate(allv):
+            if ctx.branch(I.eq(ek, k)):
+                allv[i] = (ek, I.make_slice(I.slice_elems(ev) + I.slice_elems(vs)))
+                placed = True
+                break
+        if not placed:
+            allv.append((k, vs))
+    r = r.with_field(pi, MapRef(ctx.new_cell(post, 'PostForm'))).with_field(fi, MapRef(ctx.new_cell(tuple(allv), 'Form')))
+    ctx.store_(p, r)
+    return None
+
+
+def _copy_cookie(I, c):
+    return I.ctx.alloc(I.ctx.load(c), 'cookie')
+
+
+@stub('(*net/http.Request).Cookies')
+def req_cookies(I, args, ins):
+    g = _req_ghost(I, args[0])
+    return I.make_slice([_copy_cookie(I, c) for c in g['cookies']]) if g['cookies'] else Slice(I.ctx.alloc((), 'cookies'), 0, 0, 0)
+
+
+@stub('(*net/http.Request).Cookie')
+def req_cookie(I, args, ins):
+    ctx = I.ctx
+    g = _req_ghost(I, args[0])
+    ni = I.prog.field_index(COOKIE, 'Name')
+    for c in g['cookies']:
+        if ctx.branch(I.eq(ctx.load(c)[ni], args[1])):
+            return TupleV((_copy_cookie(I, c), None))
+    return TupleV((None, ctx.load(I.global_ptr('net/http.ErrNoCookie'))))
+
+
+@stub('(*net/http.Request).AddCookie')
+def req_addcookie(I, args, ins):
+    g = _req_ghost(I, args[0])
+    g['cookies'] = g['cookies'] + [I.ctx.force(args[1])]
+    return None
+
+
+OPAQUE_IMPLEMENTS['*verif.ctx'] = {'context.Context'}
+
+
+def _new_ctx(I, parent, key, val):
+    ctx = I.ctx
+    p = ctx.alloc(StructV([]), 'context')
+    ctx.ghost.setdefault('contexts', {})[p.cell] = (parent, key, val)
+    return Iface('*verif.ctx', p)
+
+
+@stub('context.Background', 'context.TODO')
+def ctx_background(I, args, ins):
+    return _new_ctx(I, None, None, None)
+
+
+@stub('context.WithValue')
+def ctx_with_value(I, args, ins):
+    return _new_ctx(I, I.ctx.force(args[0]), args[1], args[2])
+
+
+def _ctx_value(I, recv, args, ins):
+    ctx = I.ctx
+    cur = recv
+    n = 0
+    while cur is not None and n < 50:
+        parent, key, val = ctx.ghost['contexts'][cur.cell]
+        if key is not None and ctx.branch(I.eq(key, args[0])):
+            return val
+        cur = parent.val if isinstance(parent, Iface) else None
+        n += 1
+    return None
+
+
+INVOKE_STUBS[('*verif.ctx', 'Value')] = _ctx_value
+INVOKE_STUBS[('*verif.ctx', 'Done')] = lambda I, recv, args, ins: None
+INVOKE_STUBS[('*verif.ctx', 'Err')] = lambda I, recv, args, ins: None
+
+
+@stub('(*net/http.Request).Context')
+def req_context(I, args, ins):
+    g = _req_ghost(I, args[0])
+    if g['ctx'] is None:
+        g['ctx'] = _new_ctx(I, None, None, None)
+    return g['ctx']
+
+
+@stub('(*net/http.Request).WithContext')
+def req_with_context(I, args, ins):
+    ctx = I.ctx
+    p = ctx.force(args[0])
+    g = _req_ghost(I, p)
+    np = ctx.alloc(ctx.load(p), 'request')
+    ng = _req_ghost(I, np)
+    ng.update({'form': g['form'], 'cookies': list(g['cookies']), 'ctx': ctx.force(args[1])})
+    return np
+
+
+def canonical_header(k):
+    return '-'.join(w[:1].upper() + w[1:].lower() for w in k.split('-')) if isinstance(k, str) else k
+
+
+def _hdr(I, h):
+    h = I.ctx.force(h)
+    if h is None:
+        raise GoPanic('assignment-to-nil-map', I.ctx.cur_pos)
+    return h
+
+
+@stub('(net/http.Header).Set')
+def header_set(I, args, ins):
+    return values_set(I, [_hdr(I, args[0]), canonical_header(args[1]), args[2]], ins)
+
+
+@stub('(net/http.Header).Add')
+def header_add(I, args, ins):
+    return values_add(I, [_hdr(I, args[0]), canonical_header(args[1]), args[2]], ins)
+
+
+@stub('(net/http.Header).Get')
+def header_get(I, args, ins):
+    return values_get(I, [args[0], canonical_header(args[1])], ins)
+
+
+@stub('(net/http.Header).Del')
+def header_del(I, args, ins):
+    return values_del(I, [_hdr(I, args[0]), canonical_header(args[1])], ins)
+
+
+@stub('(net/http.Header).Values')
+def header_values(I, args, ins):
+    ctx = I.ctx
+    for k, vs in _values_entries(I, args[0]):
+        if ctx.branch(I.eq(k, canonical_header(args[1]))):
+            return vs
+    return NIL_SLICE
+
+
+def _writer_key(I, w):
+    w = I.ctx.force(w)
+    if isinstance(w, Iface):
+        v = I.ctx.force(w.val)
+        if isinstance(v, Ptr):
+            return v.cell
+    raise Inconclusive('response writer %r' % (w,))
+
+
+@stub('net/http.SetCookie')
+def http_setcookie(I, args, ins):
+    ctx = I.ctx
+    w, c = ctx.force(args[0]), ctx.force(args[1])
+    if c is None:
+        raise GoPanic('nil-deref', ctx.cur_pos)
+    cp = ctx.alloc(ctx.load(c), 'setcookie')
+    ctx.ghost.setdefault('setcookies', {}).setdefault(_writer_key(I, w), []).append(cp)
+    h = I.invoke(w, 'Header', [], ins)
+    s = ctx.fresh_str('set-cookie')
+    values_add(I, [h, 'Set-Cookie', s], ins)
+    return None
+
+
+@intrinsic('verifSetCookies')
+def i_setcookies(I, args, ins):
+    ctx = I.ctx
+    cs = ctx.ghost.get('setcookies', {}).get(_writer_key(I, args[0]), [])
+    return I.make_slice(list(cs)) if cs else NIL_SLICE
+
+
+STATUS_TEXT = {200: 'OK', 302: 'Found', 303: 'See Other', 400: 'Bad Request', 401: 'Unauthorized', 403: 'Forbidden', 404: 'Not Found',
+               405: 'Method Not Allowed', 500: 'Internal Server Error', 301: 'Moved Permanently', 307: 'Temporary Redirect'}
+
+
+@stub('net/http.StatusText')
+def http_statustext(I, args, ins):
+    c = args[0]
+    if isinstance(c, int):
+        return STATUS_TEXT.get(c, '')
+    f = z3.Function('http.StatusText', z3.IntSort(), z3.StringSort())
+    return f(c)
+
+
+@stub('net/http.Redirect')
+def http_redirect(I, args, ins):
+    """Location header (the target as given: callers pass absolute paths or absolute URLs), then the status."""
+    w, r, u, code = args
+    w = I.ctx.force(w)
+    h = I.invoke(w, 'Header', [], ins)
+    values_set(I, [h, 'Location', u], ins)
+    I.invoke(w, 'WriteHeader', [code], ins)
+    return None
+
+
+@stub('net/http.Error')
+def http_error(I, args, ins):
+    w, msg, code = args
+    w = I.ctx.force(w)
+    h = I.invoke(w, 'Header', [], ins)
+    values_set(I, [h, 'Content-Type', 'text/plain; charset=utf-8'], ins)
+    values_set(I, [h, 'X-Content-Type-Options', 'nosniff'], ins)
+    I.invoke(w, 'WriteHeader', [code], ins)
+    body = I.make_slice(I.string_bytes(msg) if isinstance(msg, str) else [I.ctx.fresh_int('errbody', 'uint8')])
+    I.invoke(w, 'Write', [body], ins)
+    return None
+
+
+@stub('net/http.NotFound')
+def http_notfound(I, args, ins):
+    return http_error(I, [args[0], '404 page not found', 404], ins)
+
+
+@stub('(net/http.HandlerFunc).ServeHTTP')
+def handlerfunc_serve(I, args, ins):
+    return I.call_value(args[0], [args[1], args[2]], ins)
+
+
+@stub('net/http.NotFoundHandler')
+def http_notfoundhandler(I, args, ins):
+    return Iface('net/http.HandlerFunc', PyFunc(lambda I2, a, i: http_error(I2, [a[0], '404 page not found', 404], i), 'notfound'))
+
+
+@stub('net.SplitHostPort')
+def net_splithostport(I, args, ins):
+    ctx = I.ctx
+    s = args[0]
+    if isinstance(s, str):
+        i = s.rfind(':')
+        if i < 0 or ']' in s[i:]:
+            return TupleV(('', '', ctx.new_error('net', msg='missing port in address')))
+        return TupleV((s[:i].strip('[]'), s[i + 1:], None))
+    if ctx.choose(2, 'splithostport') == 1:
+        return TupleV(('', '', ctx.new_error('net', msg='missing port in address')))
+    return TupleV((ctx.fresh_str('host'), ctx.fresh_str('port'), None))
+
+
+@stub('(*net/url.URL).Hostname')
+def url_hostname(I, args, ins):
+    u = I.ctx.load(I.ctx.force(args[0]))
+    h = u[I.prog.field_index('net/url.URL', 'Host')]
+    if isinstance(h, str):
+        i = h.rfind(':')
+        return h[:i] if i >= 0 and ']' not in h[i:] else h
+    f = z3.Function('url.Hostname', z3.StringSort(), z3.StringSort())
+    return f(h)
+
+
+@stub('(*net/url.URL).ResolveReference')
+def url_resolve_reference(I, args, ins):
+    """Exact for a concrete base and a reference that is only a relative Path (the way samlsp.New uses it)."""
+    ctx = I.ctx
+    base = ctx.load(ctx.force(args[0]))
+    ref = ctx.load(ctx.force(args[1]))
+    T = 'net/url.URL'
+    g = lambda v, n: v[I.prog.field_index(T, n)]
+    bs = url_string_of(I, base)
+    rp = g(ref, 'Path')
+    if isinstance(bs, str) and isinstance(rp, str) and g(ref, 'Scheme') == '' and g(ref, 'Host') == '':
+        import urllib.parse as up
+        r = url_parse(I, [up.urljoin(bs, rp)], ins)
+        return r[0]
+    raise Inconclusive('ResolveReference on symbolic URLs')
